@@ -551,6 +551,10 @@ def validate_usm_message(message: PlainMessage) -> None:
     :raises SnmpError: If an error was found
     """
     pdu = message.scoped_pdu.data.value
+    if not isinstance(message.scoped_pdu.data, Report):
+        # The usmStats counters are ordinary readable objects. They only
+        # indicate an error when they arrive in a Report PDU.
+        return
     errors = {
         ObjectIdentifier(
             "1.3.6.1.6.3.15.1.1.1.0"
@@ -565,8 +569,7 @@ def validate_usm_message(message: PlainMessage) -> None:
         if varbind.oid in errors:
             msg = errors[varbind.oid]
             raise SnmpError(f"Error response from remote device: {msg}")
-    if isinstance(message.scoped_pdu.data, Report):
-        raise SnmpError("Unexpected report received from remote device")
+    raise SnmpError("Unexpected report received from remote device")
 
 
 def create() -> UserSecurityModel:
